@@ -167,7 +167,9 @@ class C19(PropBase):
             "(AMD64, PPC64, MIPS64, ARM64, ARM64_OLD, the 32-bit ones, unknown ones), exception code / si_code / parameters "
             "(incl. the general-protection-fault shapes), and an ENCODED amd64 instruction at rip (mov/add/sub/cmp/xor/and/or/"
             "test/inc/dec/lea/push/pop/call/jmp with every ModRM/SIB memory form incl. rip-relative, absolute, 32-bit addressing; "
-            "call/jmp reg, ret, jcc, call/jmp imm, nop) together with its decoded form for the model; scenarios: zero base "
+            "call/jmp reg, ret / ret imm / retf / iret, jcc, call/jmp imm, nop; string instructions with rep/repne/0x66/REX.W, segment overrides, lock RMW forms, "
+            "legacy SSE, VEX-encoded AVX, 49 further one-memory-operand forms, mov moffs64, push imm, instructions with unrecorded implicit accesses) "
+            "together with its decoded form for the model; scenarios: zero base "
             "register, zero index only, zero call target, accessed address in the non-canonical range one high bit from a "
             "mapped one, operand registers one bit from a region, power-of-two addresses. Addresses are one bit away from "
             "region addresses, near null, canonical boundary, random. "
@@ -179,20 +181,26 @@ class C19(PropBase):
         "regexes over confidence(), BitRange::range, poison list; aborts on unrecognised shapes",
         "translate/c19_check.py: Cpu / PointerWidth / pointer_width / from_processor_architecture (+ numeric ProcessorArchitecture values), the gates and "
         "adjusted-address arms of check_for_bitflips (small expression grammar) inside a fixed skeleton of the body, from_crash_reason / "
-        "is_possibly_allowed_for arms, NON_CANONICAL_RANGE, GPF constants, guard + index expression of the NEARBY_REGISTER lookup -> Gen/C19Check.v; "
-        "textual pins (abort on change) of try_bit_flips, calculate_heuristics, the adjusted-address part of get_exception_details, "
-        "try_detect_null_pointer_in_disguise, try_get_non_canonical_crash_address, represents_general_protection_fault",
+        "is_possibly_allowed_for arms, NON_CANONICAL_RANGE, GPF constants, guard + index expression of the NEARBY_REGISTER lookup -> Gen/C19Check.v",
+        "translate/c19_src.py: try_bit_flips, calculate_heuristics, try_detect_null_pointer_in_disguise, try_get_non_canonical_crash_address, the "
+        "adjusted-address chain of get_exception_details, represents_general_protection_fault, MinidumpException::get_crash_address, "
+        "MemoryAddressInfo::try_from_operand and the implicit stack accesses of op_analysis.rs COMPILED statement by statement in a small grammar "
+        "(expression compiler, guard/item lists, match arms) -> Gen/C19Src.v; C19/Source.v is the reading of that grammar (how a guard / item / gate "
+        "list is executed); aborts on Rust outside the grammar; textual pins that remain: the address list handed to the adjusted-address helpers, "
+        "the statement skeletons of calculate_heuristics / try_from_operand, fragments of from_{windows,linux,mac}_exception",
         "hand-written models C19/Model.v (try_bit_flips, heuristics, confidence) and C19/Pipeline.v (adjusted address, GPF test, operand evaluation, "
-        "implicit stack accesses, instruction-pointer update, register set order) tied to the code by correspondence; the C08 range-table model for region lookup",
+        "implicit stack accesses, instruction-pointer update, register set order): proved EQUAL to the compiled source (c19_*_src_refines) and, through "
+        "Driver.v executing the compiled form, compared with the code; the C08 range-table model for region lookup",
         "the amd64 decoder (yaxpeax) is not modelled: the theorems quantify over an arbitrary analysis result; for Q cases the generator's own encoder "
         "supplies the decoded form and the harness compares the resulting accesses / ip update / adjusted address / flips with the real analysis",
         "minidump-crate side (Pipeline.v crash_address / reason_of / os_class): Os / PlatformId / per-OS reason dispatch / error enums regenerated, "
-        "get_crash_address and the AV / SIGSEGV / SIGBUS / EXC_BAD_ACCESS refinements of from_{windows,linux,mac}_exception pinned textually; every other crash "
+        "get_crash_address compiled, the AV / SIGSEGV / SIGBUS / EXC_BAD_ACCESS refinements of from_{windows,linux,mac}_exception pinned textually; every other crash "
         "reason is one class (irrelevant to the GPF test and to the memory operation); validated by the Q correspondence",
         "extraction ExtrOcamlBasic only; ocaml/c19/main.ml; harness/src/bin/c19.rs (hook minidump_processor::verif_hooks)",
     ]
     assumptions = ["instruction decoding (yaxpeax) is not modelled: theorems hold for every analysis result; P cases with planted bytes and Q cases the generator "
-                   "cannot decode are judged by the oracle alone",
+                   "cannot decode are judged by the oracle alone (outside the generated decoded forms: EVEX, XOP/3DNow!, VSIB gathers, far call/jmp through memory, "
+                   "other x87 forms, invalid / truncated encodings)",
                    "contexts in generated dumps have all registers valid (theorems cover unreadable registers; 32-bit addressing exercises the unreadable-operand path)"]
     manifest = {
         "text": "Top-level theorem c19_the_property (raw records of the dump, arbitrary instruction analysis) states the property clause by clause; "
@@ -208,7 +216,11 @@ class C19(PropBase):
                 "zero base register / zero call target => nothing reported; the whole property in plain arithmetic on MemoryInfoList / Linux-maps "
                 "records; from the raw records (processor_architecture, platform_id, exception record): no flips unless AMD64/PPC64/MIPS64, "
                 "bits 48..64 only for an AMD64 dump with one of the three GPF record shapes (never Android/iOS). Completeness: every qualifying "
-                "neighbour of every examined value is reported. Constants, tables, gates and clamps are regenerated from the source each run; model compared with try_bit_flips (guarded "
+                "neighbour of every examined value is reported. Round 5 (second pass): try_bit_flips, calculate_heuristics, the adjusted-address helpers, the GPF arms, "
+                "get_crash_address and the operand evaluation / implicit accesses of op_analysis.rs are COMPILED from the source (no longer pinned); the compiled path is "
+                "proved equal to the model (c19_*_src_refines), THE PROPERTY is stated for it (c19_the_property_src), and soundness / none-when-accessible / completeness "
+                "are proved for ANY try_bit_flips body inside the translator's grammar under four checkable side conditions. "
+                "Constants, tables, gates and clamps are regenerated from the source each run; the compiled model is compared with try_bit_flips (guarded "
                 "hook) and with whole-dump processing incl. the analysis result for generated instructions; an independent oracle re-checks the "
                 "property on the real output.",
         "note": "Trusted: Coq kernel (+VM); Flocq as f32 semantics (brings the standard library's real-number and classical axioms under c19_confidence_01 only); "
